@@ -32,7 +32,8 @@ RULE = ("1-3 blocks of 1-4 chain-bonded atoms with nrexcl drawn from 0..4 (30 % 
         "next-residue bond), links `a >b` / `a +b` making one bond per adjacent residue pair (15 % of the pairs left "
         "without link), explicit exclusions in blocks (lines of 2-4 atoms, first atom vs each other) and links; residue graphs: paths, trees, one ring, 1-7 residues "
         "(10 thorough); non-trivial = at least two different exclusion distances among the residues and an "
-        "inter-residue bond; 30 % of the cases with a bond or a constraint made by a by_atom_id link; distinct = abstract case")
+        "inter-residue bond; 30 % of the cases with a bond or a constraint made by a by_atom_id link; 15 % of the .ff cases with a link that removes an inner / ring "
+        "atom of a block (replace atomname null); distinct = abstract case")
 
 
 # ------------------------------------------------------------------------------------------ generator
@@ -113,6 +114,21 @@ def gen_case(rng, max_res):
                 links.append(dict(atoms=[[names_x[i], {"resname": x["name"]}], [names_x[j], {"resname": x["name"]}]],
                                   ixns=[["bonds", [names_x[i], names_x[j]], ["1", "0.29", "650"], {}]], edges=[], nonedges=[], patterns=[],
                                   c14=dict(kind="intra-bond", x=x["name"])))
+    # a link that REMOVES an atom (`replace: {atomname: null}`) that is not a leaf of its block: an inner atom of the
+    # chain or, after closing the block into a ring, a ring atom — the atoms next to it end up farther apart (or apart)
+    # in the written molecule, and the exclusions must follow the WRITTEN bonds
+    removal = None
+    if syntax == "ff" and rng.random() < 0.15:
+        cands = [x for x in blocks if len(x["atoms"]) >= 3]
+        if cands:
+            x = rng.choice(cands)
+            n = len(x["atoms"])
+            if rng.random() < 0.6 and not any(item[0] in ("bonds", "constraints") and sorted(item[1]) == [0, n - 1] for item in x["ixns"]):
+                x["ixns"].append(["bonds", [0, n - 1], ["1", "0.31", "950"], {}])        # ring closure inside the block
+            r = rng.randint(1, n - 2)
+            removal = dict(x=x["name"], idx=r)
+            links.append(dict(atoms=[[x["atoms"][r]["name"], {"resname": x["name"], "replace": {"atomname": None}}]],
+                              ixns=[], edges=[], nonedges=[], patterns=[], c14=dict(kind="remove", x=x["name"], idx=r)))
     # in a file the sections of one block must be contiguous
     for block in blocks:
         order = []
@@ -121,11 +137,15 @@ def gen_case(rng, max_res):
                 order.append(item[0])
         block["ixns"] = [item for sec in order for item in block["ixns"] if item[0] == sec]
     nres = rng.randint(1, max_res) if rng.random() < 0.1 else rng.randint(2, max_res)
-    graph = G.gen_graph(rng, nres, names, labelled=0.0, permute=0.3)
+    graph = G.gen_graph(rng, nres, names, labelled=0.0, permute=0.3, start=rng.choice([1, 1, 1, 7, 28]))
+    if rng.random() < 0.25:
+        graph = G.rekey_graph(rng, graph)          # node keys with an offset / gaps / permuted / reversed
     case = dict(blocks=blocks, links=links, graph=graph)
     # a bond made by a link that addresses atoms by number ([ molmeta ] by_atom_id true): ring closure / cross-link
     if nres >= 2 and rng.random() < 0.3:
         own = c10.ownership(case)
+        gone = removed_atoms(case)
+        own = {k: [a for a in atoms if a not in gone] for k, atoms in own.items()}     # (numbers = node keys, which keep their gaps)
         ra, rb = rng.sample(sorted(own), 2)
         a, b = rng.choice(own[ra]) + 1, rng.choice(own[rb]) + 1
         # the connection is a bond or — as in Martini-like models — a constraint: both are bonds of the written
@@ -136,6 +156,19 @@ def gen_case(rng, max_res):
             ixn = ["constraints", [str(a), str(b)], ["1", "0.41"], {}]
         links.append(dict(molmeta={"by_atom_id": True}, atoms=[], edges=[], nonedges=[], patterns=[], ixns=[ixn]))
     return case
+
+
+def removed_atoms(case):
+    """node keys (= atom indices before removal) of the atoms the removing links of the case take out"""
+    own = c10.ownership(case)
+    gone = set()
+    for link in case["links"]:
+        info = link.get("c14") or {}
+        if info.get("kind") == "remove":
+            for key, _resid, resname in case["graph"]["nodes"]:
+                if resname == info["x"]:
+                    gone.add(own[key][info["idx"]])
+    return gone
 
 
 # ------------------------------------------------------------------------------------------ real run
@@ -172,7 +205,11 @@ def expected_explicit(case, edges_w, params_w):
     resname = {key: name for key, _resid, name in case["graph"]["nodes"]}
     pairs = set()
 
+    gone = removed_atoms(case)
+
     def add_line(atoms):
+        if any(a in gone for a in atoms):
+            return          # an interaction line that mentions a removed atom is dropped as a whole
         for other in atoms[1:]:
             if other != atoms[0]:
                 pairs.add(tuple(sorted((atoms[0], other))))
@@ -199,6 +236,14 @@ def expected_explicit(case, edges_w, params_w):
                     fits = resid[j] > resid[i] if info["prefix"] == ">" else resid[j] == resid[i] + 1
                     if resname[i] == info["x"] and resname[j] == info["y"] and fits:
                         add_line([own[i][names_x.index(info["a"])], own[j][names_y.index(info["excl"])]])
+    if gone:
+        total = sum(len(atoms) for atoms in own.values())
+        rank, k = {}, 0
+        for a in range(total):
+            if a not in gone:
+                rank[a] = k
+                k += 1
+        pairs = {tuple(sorted((rank[p], rank[q]))) for p, q in pairs if p not in gone and q not in gone}
     return sorted(pairs)
 
 
@@ -259,6 +304,10 @@ def one_case(ctx, case):
     for key, _resid, resname in case["graph"]["nodes"]:
         e += [[a, block_e[resname]] for a in own[key]]
     e.sort()
+    gone = removed_atoms(case)
+    if gone:
+        # the written molecule numbers the surviving atoms consecutively
+        e = [[k, dist] for k, (_a, dist) in enumerate(pair for pair in e if pair[0] not in gone)]
     reqs = []
     if "excls" in seen:
         reqs.append(("tag", dict(op="tag", excls=seen["excls"])))
